@@ -5,6 +5,7 @@ import (
 	"go/constant"
 	"go/token"
 	"go/types"
+	"sort"
 
 	"golang.org/x/tools/go/ssa"
 
@@ -824,6 +825,26 @@ var ruleCap = &core.Rule{ID: "R16.2", Min: 8,
 					continue
 				}
 				key := fmt.Sprintf("%s: outside call of %s", core.FName(f), callOrdinal(ci))
+				if m.wrap[f] {
+					// a wrapper runs on the state of the scanner function that called it
+					onlyFam := true
+					for _, g2 := range c.AllModFuncs() {
+						for _, c2 := range core.Calls(g2) {
+							if c2.Common().StaticCallee() == f && !(m.fam[g2] || m.wrap[g2]) {
+								onlyFam = false
+							}
+							if c2.Common().StaticCallee() == f && (m.fam[g2] || m.wrap[g2]) && c2.Common().Args[0] != ssa.Value(g2.Params[0]) {
+								onlyFam = false
+							}
+						}
+					}
+					if intParamIndex(h) >= 0 && m.depthTaking(h) {
+						s.Und(key, c.Pos(ci.Pos()), "a wrapper outside the scanner family calls a depth-taking scanner function: the depth accounting through it is not modelled")
+						continue
+					}
+					s.Check(onlyFam, key, c.Pos(ci.Pos()), "wrapper called by the scanner family only, on the caller's own state", "scanner entered from outside the pooled entry point (state may lack the cap)")
+					continue
+				}
 				if f != m.parse {
 					s.Bad(key, c.Pos(ci.Pos()), "scanner entered from outside the pooled entry point (state may lack the cap)")
 					continue
@@ -835,6 +856,28 @@ var ruleCap = &core.Rule{ID: "R16.2", Min: 8,
 		// (e) on the capped edge the scanner fails: covered by (a) (rejected == returns 0)
 	}}
 
+// depthTaking: h (transitively, inside the family) reaches the guard function, i.e. takes part in the recursion.
+func (m *jsonModel) depthTaking(h *ssa.Function) bool {
+	seen := map[*ssa.Function]bool{}
+	var visit func(f *ssa.Function) bool
+	visit = func(f *ssa.Function) bool {
+		if f == m.guardFn {
+			return true
+		}
+		if seen[f] {
+			return false
+		}
+		seen[f] = true
+		for _, ci := range core.Calls(f) {
+			if g := ci.Common().StaticCallee(); g != nil && (m.fam[g] || m.wrap[g]) && visit(g) {
+				return true
+			}
+		}
+		return false
+	}
+	return visit(h)
+}
+
 func valueOf(in ssa.Instruction) ssa.Value {
 	v, _ := in.(ssa.Value)
 	return v
@@ -843,7 +886,7 @@ func valueOf(in ssa.Instruction) ssa.Value {
 func hasFamilyCallOrIndex(b *ssa.BasicBlock, m *jsonModel) bool {
 	for _, in := range b.Instrs {
 		if c, ok := in.(*ssa.Call); ok {
-			if f := c.Call.StaticCallee(); f != nil && m.fam[f] {
+			if f := c.Call.StaticCallee(); f != nil && (m.fam[f] || m.wrap[f]) {
 				return true
 			}
 		}
@@ -1035,7 +1078,6 @@ func findCycle(adj map[*ssa.Function][]*ssa.Function) string {
 	return cyc
 }
 
-
 // R08.3 (structural part): provenance of the scanner entry's results.
 var ruleParseResults = &core.Rule{ID: "R08.3", Min: 4,
 	Doc: "the scanner entry reports the scanner's own state: result 0 is the top-level scanner result (or 0 under the failure flag), results 1.. are loads of fields of the pooled state, unmodified; the inspected-bytes field is only ever reset to 0 or incremented by 1",
@@ -1128,7 +1170,16 @@ var ruleAccounting = &core.Rule{ID: "R08.6", Min: 18,
 		if ibF < 0 {
 			core.Bail("inspected-bytes field not identified")
 		}
-		for _, f := range m.famList {
+		units := append([]*ssa.Function{}, m.famList...)
+		var ws []*ssa.Function
+		for w := range m.wrap {
+			if w.Signature.Results().Len() > 0 && core.IsInteger(w.Signature.Results().At(0).Type()) {
+				ws = append(ws, w)
+			}
+		}
+		sort.Slice(ws, func(i, j int) bool { return ws[i].Name() < ws[j].Name() })
+		units = append(units, ws...)
+		for _, f := range units {
 			chain := countChain(f)
 			// range-over-literal idiom: return len(X) after a full range over parameter X
 			exempt := map[*ssa.BasicBlock]bool{}
@@ -1279,6 +1330,16 @@ func countChain(f *ssa.Function) map[ssa.Value]bool {
 			}
 		case *ssa.Parameter:
 			chain[v] = true
+		case *ssa.Extract:
+			// position-passing helper: next, ... = helper(b, pos): the position flows through, the helper accounts for what it adds
+			if call, ok := x.Tuple.(*ssa.Call); ok && x.Index == 0 {
+				if h := call.Call.StaticCallee(); h != nil && core.InMod(h) && h.Blocks != nil {
+					chain[v] = true
+					for _, a := range call.Call.Args {
+						mark(a)
+					}
+				}
+			}
 		}
 	}
 	for _, r := range core.Returns(f) {
